@@ -167,6 +167,12 @@ def compare(cdoc, M, label_of, thr, cfg, twin=None, decimals=-1, expect_empty_sh
                     sig = "C01-NONLIT"
                 elif not kls:
                     sig = "C01-NONLIT-KLS"
+            if sig is not None and fig_n is not None and fig_n not in cands:
+                # the deviation these two findings describe: the merged line carries IRI-count + BNode-count
+                def alts(k):
+                    return {M.plus[S][dp].get(k, 0)} | set(M.hist[S][dp].get(k, {}).values())
+                if fig_n not in {a + b for a in alts(("kind", "IRI")) for b in alts(("kind", "BNode"))}:
+                    sig = None
             if fig_n is not None:
                 if fig_n not in cands:
                     out.append(Finding("COUNT", "%s %s %s card %s (%s): printed %s, expected %s" % (lab, dp, kind, card, where, fig_n, cands), sig))
@@ -235,3 +241,25 @@ def _goneref_sig(M, S, dp, thr, cdoc, label_of):
         if k[0] == "ref" and n / N >= thr and k[1] not in cdoc:
             return "C02-GONEREF"
     return None
+
+
+def fact_map(cs, dec):
+    """{(dp, kind, card): (n, ratio)} of one canonical shape; entries that are ambiguous within the document are dropped
+    (with disable_exact_cardinality a '+' on a constraint line may carry the figure of the original {k})."""
+    d = {}
+    amb = set()
+    for (dp, kind, card, n, ratio) in cs.facts:
+        k = (dp, kind, card)
+        if k in d and d[k] != (n, ratio):
+            amb.add(k)
+        d[k] = (n, ratio)
+    if dec:
+        # a '+' line produced by disable_exact_cardinality carries the figure of the original {k}: ambiguous, skip
+        for k in list(d):
+            if k[2] == "+":
+                amb.add(k)
+    for k in amb:
+        d.pop(k, None)
+    return d
+
+
